@@ -38,6 +38,8 @@ import (
 
 	runtimeoptions "github.com/kubewharf/apiserver-runtime/pkg/server/options"
 	metav1 "k8s.io/apimachinery/pkg/apis/meta/v1"
+	"k8s.io/apimachinery/pkg/watch"
+	clienttesting "k8s.io/client-go/testing"
 	genericapifilters "k8s.io/apiserver/pkg/endpoints/filters"
 	genericapirequest "k8s.io/apiserver/pkg/endpoints/request"
 	genericserver "k8s.io/apiserver/pkg/server"
@@ -103,6 +105,8 @@ type gateway struct {
 	maxConc  int64
 	panicMsg atomic.Value
 	runPanic atomic.Value
+	watching chan struct{}
+	deaf     bool // the informer never started watching: every case on this gateway is inconclusive
 	exists   map[string]bool
 	writes   int64
 	rv       int
@@ -115,6 +119,15 @@ type gateway struct {
 func startGateway() *gateway {
 	g := &gateway{client: gatewayfake.NewSimpleClientset(), stop: make(chan struct{}), exists: map[string]bool{},
 		ptrIdx: map[*clusters.ClusterInfo]int{}, rdv: &rendezvous{}}
+	// the fake tracker does not replay: an object written between the informer's List and the registration of its
+	// Watch would never be delivered. Register the watch ourselves and tell when that has happened.
+	g.watching = make(chan struct{})
+	var once sync.Once
+	g.client.PrependWatchReactor("*", func(action clienttesting.Action) (bool, watch.Interface, error) {
+		w, err := g.client.Tracker().Watch(action.GetResource(), action.GetNamespace())
+		once.Do(func() { close(g.watching) })
+		return true, w, err
+	})
 	factory := gatewayinformers.NewSharedInformerFactory(g.client, 0)
 	g.ctl = controllers.NewUpstreamClusterController(factory.Proxy().V1alpha1().UpstreamClusters(), proxyoptions.NewRateLimiterOptions())
 	g.ctl.VerifC10WrapHandler(func(h syncqueue.SyncHandler) syncqueue.SyncHandler {
@@ -151,6 +164,11 @@ func startGateway() *gateway {
 		}()
 		g.ctl.Run(g.stop)
 	}()
+	select {
+	case <-g.watching:
+	case <-time.After(20 * time.Second):
+		g.deaf = true
+	}
 	return g
 }
 
@@ -357,6 +375,9 @@ func runRace(c *rig.Ctx, cs Case, count bool) (v verdict) {
 	}
 	g := startGateway()
 	defer g.shutdown()
+	if g.deaf {
+		return inconclusive("informer-never-watched")
+	}
 	for _, st := range cs.Steps {
 		if st.K == "sync" {
 			continue
@@ -623,6 +644,9 @@ func runAuth(c *rig.Ctx, cs Case, count bool) (v verdict) {
 	}
 	g := startGateway()
 	defer g.shutdown()
+	if g.deaf {
+		return inconclusive("informer-never-watched")
+	}
 	if err := g.serve(cs.CP); err != nil {
 		return inconclusive("serve:" + err.Error())
 	}
